@@ -24,7 +24,7 @@ from ..oracle import einsum_value, embed, ptrace, tn_tensors
 
 RULE = ("cases are vector-like networks built from generated arrays: graph vectors (tree / unicyclic / multi-loop core "
         "with tails, <= 9 sites, site dependent physical dims 2-3 and bond dims 1-3), MPS (open / periodic, L 2-7), PEPS "
-        "(1x2..3x3, D 2-3, site dependent physical dims), PEPS3D (2x2x2 and thin slabs), complex or real, raw or "
+        "(2x2..3x3, D 2-3, site dependent physical dims), PEPS3D (2x2x2, 2x2x3), complex or real, raw or "
         "unit norm; x a complex non-symmetric operator on 1-3 distinct sites given in any order x route and its "
         "options (normalized True/False/'return', get, flatten/reduce/symmetrized, boundary mode, layer tags, "
         "autogroup, max_distance/mode/fillin, gauges, loop sizes, combine/normalized flavours); oracle = dense numpy. "
@@ -307,7 +307,7 @@ def s_mps(draw, Lmin=2, Lmax=7, cyclic=None, max_bond=4):
 
 
 @st.composite
-def s_peps(draw, shapes=((2, 2), (2, 2), (2, 3), (3, 2), (3, 3), (1, 3), (2, 1))):
+def s_peps(draw, shapes=((2, 2), (2, 2), (2, 3), (3, 2), (3, 3))):
     Lx, Ly = draw(st.sampled_from(shapes))
     n = Lx * Ly
     ph = fit_phys([draw(st.sampled_from([2, 2, 2, 3])) for _ in range(n)], 768)
@@ -1115,7 +1115,7 @@ def run_peps_norm(case):
 
 @st.composite
 def s_peps3d_local(draw, tier):
-    desc = draw(s_peps3d(shapes=((2, 2, 2),) * 6 + ((1, 2, 2), (2, 2, 1), (1, 1, 3), (2, 1, 2))))
+    desc = draw(s_peps3d(shapes=((2, 2, 2),) * 7 + ((2, 2, 3),)))
     n = nsites(desc)
     route = draw(st.sampled_from(["partial_trace", "partial_trace", "partial_trace_cluster", "compute_local_expectation"]))
     nterms = draw(st.integers(1, 2)) if route.startswith("compute") else 1
@@ -1131,8 +1131,7 @@ def run_peps3d_local(case):
     d = s.desc
     route, normalized = case["route"], case["normalized"]
     w0 = case["wheres"][0]
-    thin = min(d["Lx"], d["Ly"], d["Lz"]) == 1
-    info = dict(route="3d." + route, nmz=str(normalized), flatten=case["flatten"], thin=thin)
+    info = dict(route="3d." + route, nmz=str(normalized), flatten=case["flatten"], Lz=d["Lz"])
     cls = base_cls(s, w0) + ["route=" + route, f"{d['Lx']}x{d['Ly']}x{d['Lz']}", f"flatten={case['flatten']}",
                              f"normalized={normalized}", f"symmetrized={case['symmetrized']}"]
     kw = dict(max_bond=256, cutoff=0.0, normalized=normalized, flatten=case["flatten"], symmetrized=case["symmetrized"])
@@ -1210,6 +1209,6 @@ SUBCHECKS = [
                   "<psi|psi>; x 8 boundary modes x layer_tags x canonize; nt: raw norm"),
     SubCheck("peps3d_local", run_peps3d_local, s_peps3d_local, examples=(40, 1200), shards=(2, 6),
              rule="PEPS3D.partial_trace (boundary | compressed cell contraction), partial_trace_cluster (spanning), "
-                  "compute_local_expectation x flatten x symmetrized x normalized x canonize on 2x2x2 and thin slabs, sites in "
+                  "compute_local_expectation x flatten x symmetrized x normalized x canonize on 2x2x2 (and 2x2x3), sites in "
                   "any order (1-3), untruncating cap; nt as RULE"),
 ]
